@@ -64,11 +64,6 @@ pub use async_std::fs::DirBuilder;
 pub use tokio::fs::DirBuilder;
 
 #[cfg(feature = "async-std")]
-pub use async_std::fs::OpenOptions;
-#[cfg(feature = "tokio")]
-pub use tokio::fs::OpenOptions;
-
-#[cfg(feature = "async-std")]
 pub use async_std::io::BufReader;
 #[cfg(feature = "tokio")]
 pub use tokio::io::BufReader;
